@@ -40,6 +40,9 @@ func init() {
 				o.Faults, o.BindFailures = false, false
 				return GenScript(t, "C01", "mixed-faultfree", o)
 			}
+			if chance(t, "pressure", 30) {
+				return GenPressureScript(t, "C01", "gang-pressure-faults", o)
+			}
 			return GenScript(t, "C01", "mixed-faults", o)
 		},
 		Oracles: func() []Oracle { return []Oracle{&CapacityOracle{prop: "C01"}} },
